@@ -366,7 +366,7 @@ def build(run):
 def check(run):
     run.rule = ("operation histories (3-14 ops, thorough up to 20) of up to 3 concurrent senders (send / send_batch of 1-4 events, default and "
                 "all-or-nothing inner batch), inner outcomes success / failure at event k, clock steps around the reset timeout, thresholds 1-4, "
-                "direct breaker calls; plus every success/failure/wait pattern of one sequential sender up to length 4 (thorough 7) per threshold; "
+                "direct breaker calls; plus every success/failure/wait pattern of one sequential sender up to length 4 (thorough 6) per threshold; "
                 "non-trivial = breaker opened and a later request was admitted, or two senders were in flight together; distinct = distinct (cfg, ops)")
     run.trusted += ["Coq 8.16.1 kernel + vm_compute",
                     "hand-written model coq/theories/Breaker/Model.v tied by differential run (per-op result and breaker state, delivered list, DLQ entries in order, counters, in-flight senders)",
@@ -385,7 +385,7 @@ def check(run):
     for _ in range(n):
         cases.append(dict(gen_case(run.rng, 14 if run.tier == "quick" or run.rng.chance(1, 2) else 20), kind="random"))
     for th in (1, 2, 3, 4):
-        L = 4 if run.tier == "quick" else 7
+        L = 4 if run.tier == "quick" else 6
         cases += [dict(c, kind="exhaustive") for c in exhaustive_cases(th, 10, L)]
     answers = run_impl(binpath, cases)
     try:
